@@ -23,11 +23,13 @@ Hash(x) == [hash |-> x]
 Secret(k) == [secret |-> k]
 ExHash(k) == [exhash |-> k]
 Letter(X) == [letter |-> X]
-RECURSIVE RfcBlock(_, _, _, _)
+\* the value of the j-th digest K_j of the derivation (k, session id, X), used as an input of later digests
+\* (naming it instead of nesting the term keeps terms linear in the number of blocks)
+Dg(k, sd, X, j) == [digest |-> j, of |-> <<k, sd, X>>]
 \* K1 = HASH(K || H || X || session_id);  K(i+1) = HASH(K || H || K1 || ... || Ki)
 RfcBlock(k, sd, X, i) ==
     IF i = 1 THEN Hash(<<Secret(k), ExHash(k), Letter(X), sd>>)
-    ELSE Hash(<<Secret(k), ExHash(k)>> \o [j \in 1..(i - 1) |-> RfcBlock(k, sd, X, j)])
+    ELSE Hash(<<Secret(k), ExHash(k)>> \o [j \in 1..(i - 1) |-> Dg(k, sd, X, j)])
 \* key = first n bytes of K1 || K2 || ...   (hl = digest length)
 RfcKeyH(k, sd, X, n, hl) == [blocks |-> [i \in 1..CeilDiv(n, hl) |-> RfcBlock(k, sd, X, i)], take |-> n]
 RfcKey(k, sd, X, n) == RfcKeyH(k, sd, X, n, HLen)
@@ -46,11 +48,15 @@ vars == <<mut, kex, sid, inst>>
 
 (* ---- what the code does ---- *)
 \* _compute_key: out = sofar = H(K, H, id, sid); while len(out) < nbytes: d = H(K, H, sofar); out += d; sofar += d
-RECURSIVE Extend(_, _, _, _)
-Extend(k, sofar, n, hl) ==
-    IF Len(sofar) * hl >= n THEN sofar
-    ELSE Extend(k, Append(sofar, Hash(<<Secret(k), ExHash(k)>> \o (IF mut # "last" THEN sofar ELSE <<sofar[Len(sofar)]>>))), n, hl)
-ComputeKeyH(k, sd, X, n, hl) == [blocks |-> Extend(k, <<Hash(<<Secret(k), ExHash(k), Letter(X), sd>>)>>, n, hl), take |-> n]
+\* blocks = the hash computations done so far, sofar = their digests (the accumulated byte string)
+RECURSIVE Extend(_, _, _, _, _, _, _)
+Extend(k, sd, X, blocks, sofar, n, hl) ==
+    IF Len(blocks) * hl >= n THEN blocks
+    ELSE Extend(k, sd, X,
+                Append(blocks, Hash(<<Secret(k), ExHash(k)>> \o (IF mut # "last" THEN sofar ELSE <<sofar[Len(sofar)]>>))),
+                Append(sofar, Dg(k, sd, X, Len(sofar) + 1)), n, hl)
+ComputeKeyH(k, sd, X, n, hl) ==
+    [blocks |-> Extend(k, sd, X, <<Hash(<<Secret(k), ExHash(k), Letter(X), sd>>)>>, <<Dg(k, sd, X, 1)>>, n, hl), take |-> n]
 ComputeKey(k, sd, X, n) == ComputeKeyH(k, sd, X, n, HLen)
 \* the hash calls _compute_key makes, in order (what the trace of the real function is compared with)
 HashInputs(k, sd, X, n, hl) == [i \in 1..Len(ComputeKeyH(k, sd, X, n, hl).blocks) |-> ComputeKeyH(k, sd, X, n, hl).blocks[i].hash]
